@@ -347,6 +347,7 @@ package fans
 //@   ensures[C13.refuse C15 C16]  noData(curveData) ==> err == os.ErrInvalid && fan.MinPwm == old(fan.MinPwm) && fan.StartPwm == old(fan.StartPwm) && fan.MaxPwm == old(fan.MaxPwm) && fan.FanCurveData == old(fan.FanCurveData)
 //@   ensures[C13.accept C15 C16]  !noData(curveData) ==> err == nil && fan.FanCurveData == curveData
 //@   ensures[C13.cfgwins C02] hwCfg(fan)
+//@   ensures[C02.consistent] !noData(curveData) && (fan.Config.MinPwm == nil || fan.Config.MaxPwm == nil || *fan.Config.MinPwm <= *fan.Config.MaxPwm) ==> hwMin(fan) <= hwMax(fan)
 //@   ensures[C13.max]     !noData(curveData) && fan.Config.MaxPwm == nil ==> isMaxOf(*curveData, hwMax(fan))
 //@   ensures[C13.startfirst] !noData(curveData) && fan.Config.StartPwm == nil && old(hwStart(fan)) >= 255 ==> isStartOf(*curveData, hwStart(fan))
 //@   ensures[C13.start]   !noData(curveData) && fan.Config.StartPwm == nil ==> isStartOf(*curveData, hwStart(fan))
